@@ -99,6 +99,30 @@ class Gen:
         pool_i32 += ["%cst0", "%cst1"]
         # hot set: values reused on purpose
         scope = {"i32": pool_i32, "index": [], "states": {}}
+        # a function defined in this module that reconfigures an accelerator, its accfg ops nested in control flow: to the caller
+        # a call of it is a call like any other (it may change every register)
+        self.local_fn = None
+        if not self.acc_specs and self.vt == "i32" and rng.random() < 0.15:
+            acc = rng.choice(list(self.accs))
+            fields = self.accs[acc]
+            lfs = self.launch_fields[acc]
+            params = ", ".join(f'"{f}" = %x : i32' for f in fields)
+            nest = rng.choice(["for", "if"])
+            L = ["  func.func @local0(%x: i32, %go: i1) {"]
+            if nest == "for":
+                L += ["    %l0 = arith.constant 0 : index", "    %l1 = arith.constant 1 : index", "    scf.for %li = %l0 to %l1 step %l1 {"]
+            else:
+                L += ["    scf.if %go {"]
+            L.append(f'      %ls = accfg.setup "{acc}" to ({params}) : !accfg.state<"{acc}">')
+            if lfs:
+                names = ", ".join(f'"{n}"' for n in lfs)
+                L.append(f'      %lt = "accfg.launch"({", ".join(["%x"] * len(lfs))}, %ls) <{{param_names = [{names}], accelerator = "{acc}"}}> : ({", ".join(["i32"] * len(lfs))}, !accfg.state<"{acc}">) -> !accfg.token<"{acc}">')
+            else:
+                L.append(f'      %lt = "accfg.launch"(%ls) <{{param_names = [], accelerator = "{acc}"}}> : (!accfg.state<"{acc}">) -> !accfg.token<"{acc}">')
+            L.append(f'      "accfg.await"(%lt) : (!accfg.token<"{acc}">) -> ()')
+            L += ["      scf.yield", "    }", "    func.return", "  }"]
+            self.local_fn = "\n".join(L)
+            self.features.add("module-local-callee-reconfigures-in-" + nest)
         n_top = rng.randint(2, 6)
         self.block(2, scope, depth=0, n_stmts=n_top, in_loop=False)
         self.emit(2, "func.return")
@@ -119,6 +143,8 @@ class Gen:
             )
         for d in sorted(self.decl_needed):
             header.append(f"  func.func private {d}")
+        if getattr(self, "local_fn", None):
+            header.append(self.local_fn)
         sig = ", ".join(f"{a.name}: {a.type}" for a in self.args)
         header.append(f"  func.func @main({sig}) {{")
         text = "\n".join(header + self.lines + ["  }", "}"]) + "\n"
@@ -154,6 +180,7 @@ class Gen:
         so a (hostile) input may name one of them as its input state: kept as stale candidates."""
         scope.setdefault("stale", {}).update(scope["states"])
         scope["states"].clear()
+        scope.get("lastvals", {}).clear()
 
     def pick_recent(self, scope):
         """A value for a conditional's result: half of the time one of the most recently defined ones (so that nested regions use
@@ -283,6 +310,11 @@ class Gen:
         vals = [self.pick_val(scope, ind) for _ in fields]
         if force_val is not None and vals:
             vals[rng.randrange(len(vals))] = force_val
+        elif scope.get("lastvals", {}).get(acc) and rng.random() < 0.12:
+            # the same kernel launched again: an identical full setup (dedup elides it, the state is then launched twice)
+            vals = list(scope["lastvals"][acc])
+            self.features.add("identical-setup-repeated")
+        scope.setdefault("lastvals", {})[acc] = list(vals)
         s = self.fresh("s")
         params = ", ".join(f'"{f}" = {v} : i32' for f, v in zip(fields, vals))
         prev = scope["states"].get(acc)
@@ -473,6 +505,17 @@ class Gen:
         rng = self.rng
         self.calls += 1
         self.forget(scope)
+        if getattr(self, "local_fn", None) and rng.random() < 0.5:
+            # call of the module-local function that reconfigures (unannotated, like the lowering would leave it)
+            self.clobbering_calls += 1
+            arg = rng.choice(scope["i32"])
+            self.ifs += 1
+            c = f"%cond{self.ifs}"
+            self.args.append(ArgSpec(c, "i1", "cond"))
+            self.emit(ind, f'func.call @local0({arg}, {c}) {{verif.id = "{self.new_vid()}"}} : (i32, i1) -> ()')
+            self.skel.append("U")
+            self.features.add("call-module-local")
+            return
         kind = rng.choice(["none", "none", "full", "unannotated", "unannotated"])
         arg = rng.choice(scope["i32"])
         vid = self.new_vid()
